@@ -711,6 +711,151 @@ class Canon(object):
     def hit(self, rule):
         self.count[rule] = self.count.get(rule, 0) + 1
 
+    def unroll_collect(self, fn):
+        """N50  `L = []` / `for _ in range(K): ...; L.append(E)` (K a constant 1..4, the loop variable never read, no break / continue):
+        the loop is written out K times.  A local list that starts empty, is only appended to by top-level statements of the SAME block
+        and is afterwards only read through constant indices / constant slices in later statements of that block is replaced by one
+        local per element (`a, b = L[-2:]` becomes `a = L__1; b = L__2`).  Anything else about the list leaves the function alone."""
+        def blocks(node):
+            for fld in ('body', 'orelse', 'finalbody'):
+                b = getattr(node, fld, None)
+                if isinstance(b, list) and b and isinstance(b[0], ast.stmt):
+                    yield b
+                    for st in b:
+                        if not isinstance(st, (ast.FunctionDef, ast.AsyncFunctionDef, ast.ClassDef)):
+                            for x in blocks(st):
+                                yield x
+            for h in getattr(node, 'handlers', []) or []:
+                for x in blocks(h):
+                    yield x
+
+        def is_append(st, name):
+            return isinstance(st, ast.Expr) and isinstance(st.value, ast.Call) and isinstance(st.value.func, ast.Attribute) \
+                and st.value.func.attr == 'append' and isinstance(st.value.func.value, ast.Name) and st.value.func.value.id == name \
+                and len(st.value.args) == 1 and not st.value.keywords and not isinstance(st.value.args[0], ast.Starred) \
+                and not any(isinstance(x, ast.Name) and x.id == name for x in ast.walk(st.value.args[0]))
+
+        def cint(e):
+            if e is None:
+                return None
+            if isinstance(e, ast.Constant) and type(e.value) is int:
+                return e.value
+            if isinstance(e, ast.UnaryOp) and isinstance(e.op, ast.USub) and isinstance(e.operand, ast.Constant) and type(e.operand.value) is int:
+                return -e.operand.value
+            return 'x'
+
+        all_names = {}
+        for x in ast.walk(fn):
+            if isinstance(x, ast.Name):
+                all_names[x.id] = all_names.get(x.id, 0) + 1
+        for B in list(blocks(fn)):
+            for i, st in enumerate(B):
+                if not (isinstance(st, ast.Assign) and len(st.targets) == 1 and isinstance(st.targets[0], ast.Name)
+                        and isinstance(st.value, ast.List) and not st.value.elts):
+                    continue
+                L = st.targets[0].id
+                if L in [a.arg for a in fn.args.args + fn.args.kwonlyargs] or any(isinstance(x, (ast.Global, ast.Nonlocal)) and L in x.names for x in ast.walk(fn)):
+                    continue
+                # (1) constant-trip collection loops of this list, in this block, are written out
+                j = i + 1
+                changed = False
+                while j < len(B):
+                    s2 = B[j]
+                    if isinstance(s2, ast.For) and not s2.orelse and isinstance(s2.target, ast.Name) and all_names.get(s2.target.id) == 1 \
+                            and isinstance(s2.iter, ast.Call) and isinstance(s2.iter.func, ast.Name) and s2.iter.func.id == 'range' \
+                            and len(s2.iter.args) == 1 and not s2.iter.keywords and type(cint(s2.iter.args[0])) is int and 1 <= cint(s2.iter.args[0]) <= 4 \
+                            and 'range' not in all_names.keys() - {'range'} \
+                            and any(is_append(b, L) for b in s2.body) \
+                            and not any(isinstance(x, (ast.Break, ast.Continue, ast.FunctionDef, ast.AsyncFunctionDef, ast.Lambda, ast.ClassDef, ast.NamedExpr))
+                                        for b in s2.body for x in ast.walk(b)):
+                        k = cint(s2.iter.args[0])
+                        copies = []
+                        for _ in range(k):
+                            copies.extend(copy.deepcopy(b) for b in s2.body)
+                        B[j:j + 1] = copies
+                        changed = True
+                        self.hit('N50')
+                        j += len(copies)
+                        continue
+                    j += 1
+                # (2) the list becomes one local per element
+                apps = [j for j in range(i + 1, len(B)) if is_append(B[j], L)]
+                if not apps:
+                    continue
+                n = len(apps)
+                last = apps[-1]
+                occ = sum(1 for x in ast.walk(fn) if isinstance(x, ast.Name) and x.id == L)
+                reads = []
+                ok = True
+                for j in range(last + 1, len(B)):
+                    par = {}
+                    for x in ast.walk(B[j]):
+                        for ch in ast.iter_child_nodes(x):
+                            par[id(ch)] = x
+                    for x in ast.walk(B[j]):
+                        if isinstance(x, ast.Name) and x.id == L:
+                            sub = par.get(id(x))
+                            if not (isinstance(sub, ast.Subscript) and sub.value is x and isinstance(sub.ctx, ast.Load)):
+                                ok = False
+                                break
+                            sl = sub.slice
+                            if isinstance(sl, ast.Slice):
+                                lo, hi = cint(sl.lower), cint(sl.upper)
+                                if sl.step is not None or lo == 'x' or hi == 'x':
+                                    ok = False
+                                    break
+                                idx = list(range(n))[slice(lo, hi)]
+                                reads.append((sub, idx, True, j))
+                            else:
+                                c_ = cint(sl)
+                                if type(c_) is not int or not (-n <= c_ < n):
+                                    ok = False
+                                    break
+                                reads.append((sub, [c_ % n], False, j))
+                    if not ok:
+                        break
+                if not ok or occ != 1 + n + len(reads) or not reads:
+                    continue
+                names = ['%s__%d' % (L, k) for k in range(n)]
+                if any(nm in all_names for nm in names):
+                    continue
+                # no loop may carry control back from the reads to the appends: the block itself is not (inside) a loop body
+                # that matters only if L were re-initialised per iteration, which is exactly what `L = []` in this block does
+                for k, j in enumerate(apps):
+                    B[j] = ast.copy_location(ast.Assign(targets=[ast.Name(id=names[k], ctx=ast.Store())], value=B[j].value.args[0]), B[j])
+                repl = {}
+                for sub, idx, is_slice, j in reads:
+                    if is_slice:
+                        repl[id(sub)] = ast.copy_location(ast.List(elts=[ast.Name(id=names[k], ctx=ast.Load()) for k in idx], ctx=ast.Load()), sub)
+                    else:
+                        repl[id(sub)] = ast.copy_location(ast.Name(id=names[idx[0]], ctx=ast.Load()), sub)
+
+                class _R(ast.NodeTransformer):
+                    def visit_Subscript(s_, x):
+                        if id(x) in repl:
+                            return repl[id(x)]
+                        s_.generic_visit(x)
+                        return x
+                out = []
+                for j, s2 in enumerate(B):
+                    if j == i:
+                        continue
+                    if j > last:
+                        s2 = _R().visit(s2)
+                        if isinstance(s2, ast.Assign) and len(s2.targets) == 1 and isinstance(s2.targets[0], (ast.Tuple, ast.List)) \
+                                and isinstance(s2.value, ast.List) and len(s2.value.elts) == len(s2.targets[0].elts) \
+                                and all(isinstance(t, ast.Name) for t in s2.targets[0].elts) \
+                                and all(isinstance(v, ast.Name) and v.id in names for v in s2.value.elts):
+                            for t, v in zip(s2.targets[0].elts, s2.value.elts):
+                                out.append(ast.copy_location(ast.Assign(targets=[t], value=v), s2))
+                            continue
+                    out.append(s2)
+                B[:] = out
+                self.hit('N50')
+                ast.fix_missing_locations(fn)
+                return True
+        return False
+
     def propagate(self, fn):
         """N24  a local assigned exactly once from a call-free expression over names that are themselves never re-assigned
         (parameters that are never assigned, other such locals) and constants -- or len() of such a name -- is replaced by that
@@ -1692,6 +1837,9 @@ class Canon(object):
         self.mod_tables = self._module_tables(tree)
         for fn in ast.walk(tree):
             if isinstance(fn, (ast.FunctionDef, ast.AsyncFunctionDef)):
+                for _ in range(4):
+                    if not self.unroll_collect(fn):
+                        break
                 self.method_aliases(fn)
                 self.fold_frozen_dicts(fn)
                 self.fold_sentinels(fn)
